@@ -149,6 +149,11 @@ type Check struct {
 	Exec func(r *Run) *Violation
 	// ShrinkBudget is the number of re-executions allowed while minimising.
 	ShrinkBudget int
+	// Retries is the number of extra attempts made when re-executing
+	// recorded draws (0 for checks whose Exec is a pure function of the
+	// draws; C22 sets it because Go's map order inside native.Package is
+	// outside any seam).
+	Retries int
 	// Prepare, if set, is called once before a range of runs is executed.
 	// mk(i) returns a fresh quiet Run for index i (same stream Exec will
 	// see); it lets a check batch expensive reference computations (one gc
@@ -437,10 +442,26 @@ func runRange(c Check, w *worker, out *outFile) {
 				v2 := c.Exec(r2)
 				return v2 != nil && v2.Class == v.Class
 			})
-			rf = newRun(c, w, seed, i, choice.Replay(min), nil)
-			rf.quiet = true
-			vf = c.Exec(rf)
-			if vf == nil || vf.Class != v.Class {
+			reproduce := func(d []uint64) (*Run, *Violation) {
+				// A check may declare a residual, documented source of
+				// nondeterminism in the code under test (C22: Go's map
+				// order inside native.Package): then a few attempts are made.
+				for attempt := 0; attempt < 1+c.Retries; attempt++ {
+					rr := newRun(c, w, seed, i, choice.Replay(d), nil)
+					rr.quiet = true
+					if vv := c.Exec(rr); vv != nil && vv.Class == v.Class {
+						return rr, vv
+					}
+				}
+				return nil, nil
+			}
+			rf, vf = reproduce(min)
+			if vf == nil && c.Retries > 0 {
+				// Fall back to the unminimised run.
+				min = draws
+				rf, vf = reproduce(min)
+			}
+			if vf == nil {
 				Fail("run %d: minimised draws do not reproduce %s (non-deterministic Exec)", i, v.Class)
 			}
 			matched = matchKnown(c, w, known, seed, i, min, vf)
@@ -608,6 +629,10 @@ func runReplay(c Check, w *worker, out *outFile) {
 	s := streamOf(c, &rf)
 	r := newRun(c, w, rf.Seed, rf.Index, s, nil)
 	v := c.Exec(r)
+	for attempt := 0; attempt < c.Retries && (v == nil || v.Class != rf.Class); attempt++ {
+		r = newRun(c, w, rf.Seed, rf.Index, streamOf(c, &rf), nil)
+		v = c.Exec(r)
+	}
 	res := map[string]any{"log_hash": r.LogHash()}
 	if v != nil {
 		res["class"] = v.Class
